@@ -48,7 +48,7 @@ def cell_is(u_num, bs, k, B):
 class Check(CheckBase):
     pid = "C13"
     title = "grid index nearest()"
-    bounds = {"quick": {"paths": "path ends (starts, plus ends when reversal is on) <= 2: n<=2 without reversal, n=1 with", "bins per side": "1, 2, 3",
+    bounds = {"quick": {"paths": "path ends (starts, plus ends when reversal is on) <= 2: n<=2 without reversal, n=1 with", "bins per side": "1, 2, 3; and 4 with two paths, nothing removed",
                         "removals": "every subset of the paths removed before the query", "coordinates": "unbounded symbolic reals, non-zero total extent",
                         "query": "symbolic point anywhere (inside or outside the grid)"},
               "thorough": {"paths": "as quick, plus bins = 4 (3 and 4 path ends need ~50 s per obligation and did not finish in 3 h: not included)",
@@ -79,6 +79,10 @@ class Check(CheckBase):
                            "n": n, "B": B, "rev": rev, "removed": list(removed), "split_depth": 8 if n * (2 if rev else 1) >= 2 and B >= 2 else None})
                 if not removed and n * (2 if rev else 1) == 2:
                     cs.append(dict(cs[-1], label=cs[-1]["label"] + "/after-another-index", prior=True))
+        if tier == "quick":
+            # one 4 x 4 grid case (nothing removed): the first size at which cells exist that are neither in the query's
+            # neighbourhood nor adjacent to it (the fallback search over 'all other cells' has more than one ring to cover)
+            cs.append({"label": "n2/B4/fwd/rm-", "n": 2, "B": 4, "rev": False, "removed": [], "split_depth": 8})
         return cs
 
     def config(self, tier, case):
